@@ -357,7 +357,7 @@ def _acc_execute_hook(interp, mod, fnode, args):
 
 
 contract(
-    REL + "::derived_observable", name=REL + "::derived_observable[accumulation, scalar mode]", props=["C01"],
+    REL + "::derived_observable", name=REL + "::derived_observable[accumulation, scalar mode]", props=["C01", "C03"],
     slice=_acc_loop,
     params=dict(data=AccCase("data"), new_idl_d=AccCase("new_idl_d"), deriv=AccCase("deriv"),
                 new_deltas=Custom(lambda n, c, s: CDict()), new_grad=Custom(lambda n, c, s: CDict()),
@@ -424,7 +424,8 @@ def _asm_post(a, r):
         from pyvc.sym import strictly_increasing
         out["union.sorted.%s" % cn] = strictly_increasing(ni)
         out["union.complete.%s" % cn] = And(*[subset(x, ni) for x in have])
-        out["union.sound.%s" % cn] = ForAll(0, Len(ni), lambda k, ni=ni, have=have: Or(*[_member(At(ni, k), x) for x in have]))
+        out["union.sound.%s" % cn] = True if any(x is ni for x in have) else \
+            ForAll(0, Len(ni), lambda k, ni=ni, have=have: Or(*[_member(At(ni, k), x) for x in have]))
     return out
 
 
@@ -438,7 +439,7 @@ def _flag(f):
 
 
 contract(
-    REL + "::derived_observable", name=REL + "::derived_observable[value, replica means, merged lists]", props=["C01", "C05"],
+    REL + "::derived_observable", name=REL + "::derived_observable[value, replica means, merged lists]", props=["C01", "C05", "C03"],
     slice=_asm_slice,
     params=dict(data=AccCase("data"), raveled_data=Custom(lambda n, c, s: None), func=_FuncSpec(), kwargs=Custom(lambda n, c, s: CDict())),
     cases_filter=lambda case: case["data"] == case["func"],
